@@ -582,7 +582,23 @@ func (pk *pkg) scanFunc(fd *ast.FuncDecl, imports map[string]*pkg, res *scanResu
 	var deferred []lockEv
 	held := map[string]string{} // mutex -> R|W
 	heldOrder := []string{}
-	doneOn := map[string]bool{}
+	doneOn := map[string]string{} // receiver text -> identity of the Once whose Do it has been through
+	curOnce := ""                 // identity of the Once whose Do closure is being walked
+	// onceID: WHICH sync.Once (round 4b: two accesses are ordered only by the SAME Once): pkg.Struct.field for a field,
+	// pkg.name for a package-level variable, the expression text otherwise
+	onceID := func(e ast.Expr) string {
+		if se, ok := e.(*ast.SelectorExpr); ok {
+			if o, tp, isF := pk.fieldOwner(se); isF && tp != nil && o != "" {
+				return tp.name + "." + o + "." + se.Sel.Name
+			}
+		}
+		if id, ok := e.(*ast.Ident); ok {
+			if tp, ok := pk.typedPkgVar(id); ok {
+				return tp.name + "." + id.Name
+			}
+		}
+		return pk.name + "." + typeStr(e)
+	}
 	funcParams := map[string]bool{}
 	if fd.Type.Params != nil {
 		for _, p := range fd.Type.Params.List {
@@ -729,7 +745,7 @@ func (pk *pkg) scanFunc(fd *ast.FuncDecl, imports map[string]*pkg, res *scanResu
 				if pk.onceField[t.Sel.Name] && pk.isOwnedField(t) && fd.Name.Name != "CloneFrom" {
 					s := "none"
 					if inOnce {
-						s = "once"
+						s = "once:" + curOnce
 					}
 					rows = append(rows, access{fn, pk.locName(t.Sel.Name), true, s})
 					writes[t] = true
@@ -852,10 +868,16 @@ func (pk *pkg) scanFunc(fd *ast.FuncDecl, imports map[string]*pkg, res *scanResu
 						}
 					case "Do":
 						if sk == "once" {
-							doneOn[strings.TrimSuffix(typeStr(s.X), ".once")] = true
+							oid := onceID(s.X)
+							if se, ok := s.X.(*ast.SelectorExpr); ok {
+								doneOn[typeStr(se.X)] = oid
+							}
 							if len(t.Args) == 1 {
 								if fl, ok := t.Args[0].(*ast.FuncLit); ok {
+									saved := curOnce
+									curOnce = oid
 									walk(fl.Body, true, inDefer)
+									curOnce = saved
 									return false
 								}
 							}
@@ -936,8 +958,8 @@ func (pk *pkg) scanFunc(fd *ast.FuncDecl, imports map[string]*pkg, res *scanResu
 				if pk.onceField[t.Sel.Name] && pk.isOwnedField(t) && !writes[t] && !inOnce && fd.Name.Name != "CloneFrom" {
 					if loc, _, _, _ := pkgVarOf(t); loc == "" {
 						s := "none"
-						if doneOn[typeStr(t.X)] {
-							s = "once" // read after <same object>.once.Do: ordered by sync.Once
+						if oid := doneOn[typeStr(t.X)]; oid != "" {
+							s = "once:" + oid // read after <same object>.<once>.Do: ordered by that sync.Once
 						}
 						rows = append(rows, access{fn, pk.locName(t.Sel.Name), false, s})
 					}
